@@ -97,6 +97,9 @@ func (c *Concretiser) prepScript(q M) string {
 					for canon == "" { // an empty rendering is the "empty" class
 						val, canon = ti.Gen(c.Rng)
 					}
+					if c.Rng.Intn(3) == 0 {
+						val = otherWidth(val, c.Rng) // the handler's Go type need not have the column's width
+					}
 					if c.Rng.Intn(4) == 0 {
 						val = pointerTo(val) // a non-nil pointer to the value is the value
 					}
@@ -533,4 +536,31 @@ func kindByte(k string) byte {
 		return 0xfe
 	}
 	return k[0]
+}
+
+// otherWidth hands an integer or float over in another Go type that holds the same value (an int64 for an
+// int2 column, an int32 for an int8 column, a float32 for a float8 column): the column type decides the
+// encoding, not the Go type.
+func otherWidth(val any, rng *rand.Rand) any {
+	asInt := func(v int64) any {
+		cands := []any{v, int(v)}
+		if v >= -1<<31 && v < 1<<31 {
+			cands = append(cands, int32(v))
+		}
+		if v >= -1<<15 && v < 1<<15 {
+			cands = append(cands, int16(v))
+		}
+		return cands[rng.Intn(len(cands))]
+	}
+	switch x := val.(type) {
+	case int16:
+		return asInt(int64(x))
+	case int32:
+		return asInt(int64(x))
+	case int64:
+		return asInt(x)
+	case float32:
+		return float64(x) // exactly representable
+	}
+	return val
 }
